@@ -479,7 +479,8 @@ hwloc_calc_append_object_range(struct hwloc_calc_location_context_s *lcontext,
 
   width = hwloc_calc_get_nbobjs_inside_sets_by_depth(lcontext, rootcpuset, rootnodeset, level);
   if (amount == -1)
-    amount = (width-first+step-1)/step;
+    /* X- when X is beyond the last object selects nothing (the unsigned difference would wrap around to billions of iterations) */
+    amount = (unsigned) first < width ? (width-first+step-1)/step : 0;
 
   for(i=first, j=0; j<(unsigned)amount; i+=step, j++) {
     if (wrap && i>=width)
